@@ -46,10 +46,11 @@ type Cfg struct {
 
 // Fault describes the failure injected into one migration run.
 type Fault struct {
-	Kind   string `json:"kind"`   // rlimit | enospc | eio-read | eio-read-hyd | rodir
+	Kind   string `json:"kind"`   // rlimit | enospc | eio-read | eio-read-hyd | rodir | chunk-truncated | chunk-garbage | chunk-dangling
 	Pos    string `json:"pos"`    // rlimit: structural position of the size limit inside the target .hyd
 	N      int    `json:"n"`      // enospc / eio-read: which write / read fails (1-based); rlimit+Pos=rand: per-mille of the file size
 	Target int    `json:"target"` // index (mod number of swamps) of the swamp the fault is aimed at
+	Chunk  int    `json:"chunk"`  // eio-read / chunk-*: which chunk file in directory order (mod count; negative counts from the end)
 }
 
 // RootCase is one data root with its swamps, one migrator configuration and optionally a fault.
@@ -74,26 +75,38 @@ func genRoot(c *rig.Check, idx int, faulted bool) RootCase {
 	}
 	rc.Cfg = Cfg{Verify: r.IntN(2) == 0, DeleteOld: r.IntN(2) == 0, DryRun: !faulted && r.IntN(6) == 0, Parallel: 1 + r.IntN(4)}
 	if faulted {
-		f := &Fault{Target: r.IntN(4)}
-		switch x := r.IntN(10); {
-		case x < 6:
+		f := &Fault{Target: r.IntN(4), Chunk: r.IntN(64) - 8}
+		switch x := r.IntN(20); {
+		case x < 8:
 			f.Kind = "rlimit"
 			f.Pos = rlimitPositions[r.IntN(len(rlimitPositions))]
 			f.N = r.IntN(1000)
-		case x < 8:
+		case x < 10:
 			f.Kind = "enospc"
 			f.N = 1 + r.IntN(8)
-		case x < 9:
+		case x < 13:
+			// a transient read error on one chunk file of the legacy folder
 			f.Kind = "eio-read"
 			f.N = 1
-			if r.IntN(2) == 0 {
-				// a read error on the freshly written .hyd: only the verify step reads it
-				f.Kind = "eio-read-hyd"
-				f.N = 1 + r.IntN(3)
-				rc.Cfg.Verify = true
-			}
+		case x < 17:
+			// a chunk file that is damaged before the migration starts
+			f.Kind = []string{"chunk-truncated", "chunk-garbage", "chunk-dangling"}[r.IntN(3)]
+		case x < 18:
+			// a read error on the freshly written .hyd: only the verify step reads it
+			f.Kind = "eio-read-hyd"
+			f.N = 1 + r.IntN(3)
+			rc.Cfg.Verify = true
 		default:
 			f.Kind = "rodir"
+		}
+		if f.Kind == "eio-read" || strings.HasPrefix(f.Kind, "chunk-") {
+			// these need a legacy folder with several chunk files: many records, small chunks
+			for i := range rc.Swamps {
+				for len(rc.Swamps[i].Ops) < 12 {
+					rc.Swamps[i] = genSwamp(r, i, false)
+				}
+				rc.Swamps[i].MaxFile = []int64{40, 100, 300}[r.IntN(3)]
+			}
 		}
 		rc.Fault = f
 	}
@@ -275,7 +288,7 @@ type swampEval struct {
 }
 
 // evaluate applies the oracle to one swamp after one Run.
-func evaluate(mode string, faultMode bool, cfg Cfg, data string, sp *SwampSpec, ref *Ref, before DirSnap, res *RunResult) (out []swampEval, failedPhase string, stubLeft bool) {
+func evaluate(mode string, faultMode bool, cfg Cfg, data string, sp *SwampSpec, ref, damagedRef *Ref, before DirSnap, res *RunResult) (out []swampEval, failedPhase string, stubLeft bool) {
 	folder := SwampFolder(data, sp.Name)
 	rel, _ := filepath.Rel(data, folder)
 	hyd := folder + ".hyd"
@@ -344,7 +357,23 @@ func evaluate(mode string, faultMode bool, cfg Cfg, data string, sp *SwampSpec, 
 				if !hydExists {
 					nh = ":no-hyd"
 				}
-				add("migrated:"+clause+nh, "Run reported success but the V2 loader does not see the legacy state: "+detail)
+				// A chunk file damaged before the run: the legacy engine itself skips such a chunk, so
+				// a migration that yields exactly what the legacy engine loads from the damaged folder
+				// is tolerated as long as the legacy folder (with the damaged chunk) is still there
+				// untouched. Anything else lost data.
+				tolerated := false
+				if damagedRef != nil && folderDiff == "" {
+					if c2, _ := diffState(damagedRef, st); c2 == "" {
+						tolerated = true
+					}
+				}
+				if !tolerated {
+					lost := ""
+					if folderDiff != "" {
+						lost = ":legacy-folder-gone-or-changed"
+					}
+					add("migrated:"+clause+nh+lost, "Run reported success but the V2 loader does not see the legacy state: "+detail)
+				}
 			}
 		}
 		if hydExists && ref.Name != "" {
@@ -417,7 +446,7 @@ func runRoot(c *rig.Check, rc *RootCase) {
 		c.Count("migrator_runs", 1)
 		c.Seen("configs", fmt.Sprintf("verify=%v delete=%v dry=%v", rc.Cfg.Verify, rc.Cfg.DeleteOld, rc.Cfg.DryRun))
 		for i := range rc.Swamps {
-			evs, _, _ := evaluate("nofault", false, rc.Cfg, data, &rc.Swamps[i], refs[i], before, res)
+			evs, _, _ := evaluate("nofault", false, rc.Cfg, data, &rc.Swamps[i], refs[i], nil, before, res)
 			nontrivial := len(refs[i].Cands) > 0 && (refs[i].Files >= 2 || bs[i].rewrites > 0)
 			c.Case(rig.Dump(map[string]any{"s": rc.Swamps[i], "c": rc.Cfg}), nontrivial)
 			describe(i)
@@ -432,6 +461,9 @@ func runRoot(c *rig.Check, rc *RootCase) {
 	ti := f.Target % len(rc.Swamps)
 	tFolder := SwampFolder(data, rc.Swamps[ti].Name)
 	var res *RunResult
+	var damaged string   // chunk file damaged on disk before the run ("" = none)
+	var damagedRef *Ref  // what the legacy engine loads from the damaged folder
+	restore := func() {} // puts the damaged chunk back (operator restores it from the backup)
 	switch f.Kind {
 	case "rlimit":
 		// learn the layout of the target file from a fault-free migration of a second copy
@@ -443,7 +475,8 @@ func runRoot(c *rig.Check, rc *RootCase) {
 		res = runMigrator(data, rc.Cfg, lim)
 	case "enospc":
 		res = execMigrator(root, ExecSpec{DataPath: data, Cfg: rc.Cfg}, []string{"-e", "trace=write", "-e", fmt.Sprintf("inject=write:error=ENOSPC:when=%d", f.N), "-P", tFolder + ".hyd"})
-	case "eio-read":
+	case "eio-read", "chunk-truncated", "chunk-garbage", "chunk-dangling":
+		// the migrator reads the chunk files in os.ReadDir (name) order
 		var chunks []string
 		ents, _ := os.ReadDir(tFolder)
 		for _, e := range ents {
@@ -454,9 +487,55 @@ func runRoot(c *rig.Check, rc *RootCase) {
 		sort.Strings(chunks)
 		if len(chunks) == 0 {
 			res = runMigrator(data, rc.Cfg, -1)
-		} else {
-			res = execMigrator(root, ExecSpec{DataPath: data, Cfg: rc.Cfg}, []string{"-e", "trace=read", "-e", fmt.Sprintf("inject=read:error=EIO:when=%d", f.N), "-P", chunks[len(chunks)/2]})
+			break
 		}
+		ci := ((f.Chunk % len(chunks)) + len(chunks)) % len(chunks)
+		damaged = chunks[ci]
+		c.Count("chunk_faults", 1)
+		if ci < len(chunks)-1 {
+			c.Count("chunk_faults_on_a_non_last_chunk", 1)
+		}
+		switch {
+		case ci == 0 && len(chunks) > 1:
+			c.Seen("chunk_fault_positions", "first-of-several")
+		case ci == len(chunks)-1 && len(chunks) > 1:
+			c.Seen("chunk_fault_positions", "last-of-several")
+		case len(chunks) > 1:
+			c.Seen("chunk_fault_positions", "middle")
+		default:
+			c.Seen("chunk_fault_positions", "only-chunk")
+		}
+		if f.Kind == "eio-read" {
+			res = execMigrator(root, ExecSpec{DataPath: data, Cfg: rc.Cfg}, []string{"-e", "trace=read", "-e", fmt.Sprintf("inject=read:error=EIO:when=%d", f.N), "-P", damaged})
+			damaged = "" // transient: nothing on disk changed
+			break
+		}
+		pristine := readFileOrNil(damaged)
+		switch f.Kind {
+		case "chunk-truncated":
+			_ = os.WriteFile(damaged, pristine[:len(pristine)/2], 0o644)
+		case "chunk-garbage":
+			g := append([]byte(nil), pristine...)
+			for k := range g {
+				g[k] ^= byte(0xA5 + k)
+			}
+			_ = os.WriteFile(damaged, g, 0o644)
+		case "chunk-dangling":
+			_ = os.Remove(damaged)
+			_ = os.Symlink(filepath.Join(root, "no-such-volume", filepath.Base(damaged)), damaged)
+		}
+		restore = func() {
+			if _, err := os.Stat(tFolder); err == nil {
+				_ = os.Remove(damaged)
+				_ = os.WriteFile(damaged, pristine, 0o644)
+			}
+		}
+		// the state the run starts from, and what the legacy engine itself loads from it
+		before = SnapDir(data)
+		if dr, err := LoadV1(tFolder, rc.Swamps[ti].MaxFile); err == nil {
+			damagedRef = dr
+		}
+		res = runMigrator(data, rc.Cfg, -1)
 	case "eio-read-hyd":
 		res = execMigrator(root, ExecSpec{DataPath: data, Cfg: rc.Cfg}, []string{"-e", "trace=read", "-e", fmt.Sprintf("inject=read:error=EIO:when=%d", f.N), "-P", tFolder + ".hyd"})
 	case "rodir":
@@ -473,7 +552,14 @@ func runRoot(c *rig.Check, rc *RootCase) {
 	}
 	hit := false
 	for i := range rc.Swamps {
-		evs, phase, stub := evaluate("fault:"+f.Kind, true, rc.Cfg, data, &rc.Swamps[i], refs[i], before, res)
+		var dref *Ref
+		if i == ti && damaged != "" {
+			dref = damagedRef
+			if dref == nil {
+				dref = &Ref{Cands: map[string][]string{"\x00unloadable": {"-"}}} // tolerate nothing
+			}
+		}
+		evs, phase, stub := evaluate("fault:"+f.Kind, true, rc.Cfg, data, &rc.Swamps[i], refs[i], dref, before, res)
 		if stub {
 			c.Count("failed_migrations_leaving_an_empty_hyd_stub", 1)
 		}
@@ -489,11 +575,12 @@ func runRoot(c *rig.Check, rc *RootCase) {
 		c.Count("faulted_runs_where_run_reported_failure", 1)
 	}
 	// ---- the fault clears; the operator runs the migration again
+	restore()
 	res2 := runMigrator(data, Cfg{Verify: rc.Cfg.Verify, DeleteOld: rc.Cfg.DeleteOld, Parallel: rc.Cfg.Parallel}, -1)
 	c.Count("reruns_after_fault", 1)
 	for i := range rc.Swamps {
 		// the legacy folder may legitimately be gone (first run succeeded with DeleteOld) — compare against what is there now
-		evs, _, _ := evaluate("rerun-after:"+f.Kind, false, Cfg{Verify: rc.Cfg.Verify, DeleteOld: true, Parallel: rc.Cfg.Parallel}, data, &rc.Swamps[i], refs[i], before, res2)
+		evs, _, _ := evaluate("rerun-after:"+f.Kind, false, Cfg{Verify: rc.Cfg.Verify, DeleteOld: true, Parallel: rc.Cfg.Parallel}, data, &rc.Swamps[i], refs[i], nil, before, res2)
 		report(evs, i)
 	}
 	c.Sample(map[string]any{"cfg": rc.Cfg, "fault": f, "swamps": len(rc.Swamps), "reported_failure": hit})
@@ -584,7 +671,9 @@ func sigOfFatal(s string) string {
 
 // fixedRoots are the hand-written corner cases.
 func fixedRoots() []RootCase {
-	set := func(k, kind string, seed uint64, size int) Op { return Op{Op: "set", Key: k, Kind: kind, Seed: seed, Size: size} }
+	set := func(k, kind string, seed uint64, size int) Op {
+		return Op{Op: "set", Key: k, Kind: kind, Seed: seed, Size: size}
+	}
 	var out []RootCase
 	// one record; many records in one chunk; record rewritten across sessions; all zero-like values
 	one := SwampSpec{Name: "fixed/one/record", MaxFile: 8192, Ops: []Op{set("only", "string", 7, 10), {Op: "close"}}}
@@ -616,6 +705,19 @@ func fixedRoots() []RootCase {
 		out = append(out, RootCase{Idx: 2_000_100 + i, Cfg: cfg, Swamps: []SwampSpec{
 			{Name: "fixed/long/key", MaxFile: 8192, Ops: []Op{set("a", "string", 1, 10), set(longKey, "string", 2, 10), set("z", "string", 3, 10), {Op: "close"}}},
 		}})
+	}
+	// a failure on every position of a multi-chunk folder, under every Verify/DeleteOld combination
+	k := 0
+	for _, cfg := range []Cfg{{Verify: true, DeleteOld: true, Parallel: 1}, {Verify: false, DeleteOld: true, Parallel: 2}, {Verify: true, DeleteOld: false, Parallel: 1}, {Verify: false, DeleteOld: false, Parallel: 3}} {
+		for ci, chunk := range []int{0, 1, -2, -1} {
+			kind := []string{"chunk-truncated", "chunk-garbage", "chunk-dangling", "chunk-truncated"}[(ci+k)%4]
+			if ci == k%4 {
+				kind = "eio-read"
+			}
+			out = append(out, RootCase{Idx: 2_000_200 + k*4 + ci, Cfg: cfg, Fault: &Fault{Kind: kind, N: 1, Chunk: chunk},
+				Swamps: []SwampSpec{{Name: "fixed/chunk/fault", MaxFile: 60, Ops: manyOps}}})
+		}
+		k++
 	}
 	return out
 }
